@@ -211,4 +211,40 @@ def replay(ctx, data):
         r1, _ = A.run_case(w)
         pure = A.run_cases_pure([w], common.REPO)
         return pure[0][0] == r1
-    return False
+    # composite witness: encode the recorded value again and compare with the Lean Spec layout (or, outside the Spec, with
+    # odxgen.refpdu), and decode the PDU against the model's decoder
+    from odxgen import desc as D, values as V
+    comp = D.from_json(w["desc"])
+    L, err = O.safe_load(comp)
+    if L is None:
+        return False
+    v = V.from_jsonable(w.get("value"))
+    trig = bytes.fromhex(w["trig"]) if w.get("trig") else None
+    r = O.impl_encode(L[comp.name], v, trig)
+    if not r.ok:
+        return True                                    # nothing encoded, nothing to be inexact about
+    drv = ctx.driver("drv_codec")
+    if not drv.available():
+        return False
+    line = f"(layout {S.composite(comp)} {S.pval(v)}" + (f" (trig {S.hx(trig)})" if trig is not None else "") + ")"
+    rep_line = drv.query([line])[0]
+    if rep_line.startswith("(ok "):
+        parts = rep_line[4:-1].split(" ")
+        spec_pdu = bytes.fromhex(parts[0]) if parts[0] != "-" else b""
+        spec_ov = parts[2].rstrip(")") == "t"
+        if (r.warns > 0) != spec_ov or (not spec_ov and r.pdu != spec_pdu):
+            return False
+    else:
+        from odxgen import refpdu
+        try:
+            ref_pdu, _u, ref_ov = refpdu.reference_pdu(comp, v, trig)
+            if (r.warns > 0) != ref_ov or (not ref_ov and r.pdu != ref_pdu):
+                return False
+        except Exception:  # noqa
+            pass
+    if r.warns == 0 and S.modelled(comp):
+        mrep = drv.query([S.decode_line(comp, r.pdu)])[0]
+        d = O.impl_decode(L[comp.name], r.pdu)
+        if mrep not in ("(unsupported)", "(bad-args)") and mrep.startswith("(ok ") and d.ok and O.reply_decode(d) != mrep:
+            return False
+    return True
